@@ -148,11 +148,20 @@ lock = threading.Lock()
 
 
 def sh(cmd, cwd=None, env=None, timeout=1200):
+    # own process group, killed as a whole on time-out (a mutant's test binary can loop forever and
+    # would otherwise survive `cargo test` being killed)
+    import signal
+    p = subprocess.Popen(cmd, cwd=cwd, env=env, stdout=subprocess.PIPE, stderr=subprocess.STDOUT, start_new_session=True)
     try:
-        p = subprocess.run(cmd, cwd=cwd, env=env, stdout=subprocess.PIPE, stderr=subprocess.STDOUT, timeout=timeout)
-        return p.returncode, p.stdout.decode("utf-8", "replace")
-    except subprocess.TimeoutExpired as e:
-        return 124, (e.stdout or b"").decode("utf-8", "replace") + "\nTIMEOUT"
+        out, _ = p.communicate(timeout=timeout)
+        return p.returncode, out.decode("utf-8", "replace")
+    except subprocess.TimeoutExpired:
+        try:
+            os.killpg(p.pid, signal.SIGKILL)
+        except ProcessLookupError:
+            pass
+        out, _ = p.communicate()
+        return 124, (out or b"").decode("utf-8", "replace") + "\nTIMEOUT"
 
 
 def worker(w):
